@@ -12,6 +12,7 @@ if "--props" in sys.argv:
     props = sys.argv[sys.argv.index("--props") + 1].split(",")
 src = f"/tmp/seeds/{pid}"
 wt = f"/tmp/ev_{pid}_{var}"
+VERIF = os.environ.get("VERIF_DIR", "/verif")       # the (snapshot of the) verification tree whose checks are run
 out = f"/verif/seeded/{pid}_{var}"
 os.makedirs(out, exist_ok=True)
 meta = {"property": pid, "variant": var, "checked_properties": props, "ran": []}
@@ -38,7 +39,8 @@ try:
     meta["tests_pass"] = ("failed" not in t.stdout and "error" not in t.stdout.lower()) and t.returncode == 0
     meta["detected"] = {}
     for pr in props:
-        c = run(f"cd /verif && PYVC_REPO={wt} PYVC_OUT_DIR=/tmp/ev_out_{pid}_{var} ./check {pr} --tier quick", timeout=3000)
+        c = run(f"cd {VERIF} && PYVC_REPO={wt} PYVC_OUT_DIR=/tmp/ev_out_{pid}_{var} ./check {pr} --tier quick", timeout=3000)
+        meta["verif_commit"] = subprocess.run(f"git -C {VERIF} rev-parse --short HEAD", shell=True, capture_output=True, text=True).stdout.strip()
         lines = [l for l in c.stdout.splitlines() if l.startswith("VIOLATION")]
         meta["detected"][pr] = {"exit": c.returncode, "violations": len(lines),
                                 "first": [l[:300] for l in lines[:4]], "summary": c.stdout.strip().splitlines()[-1][:300] if c.stdout.strip() else c.stderr[-300:]}
